@@ -12,6 +12,8 @@ models.
 
 First part: the model side of the driver (the eight machines behind `kind=` of a sequence label,
 one parsed op through the model, the structured observation). Second part: the monitor.
+(The ninth machine, `kind=stk`, stacked guards, has its own model side and monitor core:
+OZ/Model/GatesStkMon.lean.)
 -/
 namespace OZ.Gates.Mon
 open OZ.Host OZ.Fungible OZ.Gates
@@ -224,6 +226,7 @@ structure Stable where
 structure Obs where
   ok : Bool
   st : Stable
+  lev : List GEvent      -- the list-change events among `ev=` (allowed / disallowed / blocked / unblocked)
 
 def supOf (st : St) : Int := match tokOf st with | some t => t.supply | none => 0
 def balOf (st : St) : List Int := match tokOf st with | some t => balList NU t | none => []
@@ -271,8 +274,19 @@ def stableOf (x : MSt) : Stable :=
     paused := pausedOf x.st, counter := counterOf x.st, list := listOf x.st, cap := capOf x.st,
     migrating := migratingOf x.st, data := dataOf x.st, wasm := wasmOf x.st }
 
-/-- the model's observation of a call: the tag and the getters of the state after it -/
-def modelObs (x : MSt) (ok : Bool) : Obs := ⟨ok, stableOf x⟩
+/-- the events a call added to the module's log: what the model driver prints under `ev=` besides the
+token's own events (`OZ.Drv.C16.stepLine`; empty for a rejected call, whose state is the old one) -/
+def newEvents (st st' : St) : List GEvent := (logOf st').drop (logOf st).length
+
+/-- the list-change events among them (the pause events are judged through `paused()`) -/
+def isListEv : GEvent → Bool
+  | .paused => false
+  | .unpaused => false
+  | _ => true
+
+/-- the model's observation of a call: the tag, the getters of the state after it, and the list-change
+events the call emitted -/
+def modelObs (x : MSt) (ok : Bool) (ev : List GEvent) : Obs := ⟨ok, stableOf x, ev.filter isListEv⟩
 
 /-! ## the monitor -/
 
@@ -442,6 +456,55 @@ def vList (m : Mon) (l : Line) (o : Obs) : Option String :=
     some s!"site=list.role.{m.kind.name}.{l.call.name} list changed without the manager's authorization"
   else none
 
+/-! list changes are idempotent, events included: an accepted allow / disallow / block / unblock that does not
+flip the status of the account emits NO list event and changes nothing; one that does flip it emits
+exactly the matching event; nothing else emits a list event (`ak`: allow list, `g`: the ghost list) -/
+
+/-- the status a list-change line asks for (`allow` / `block`: listed, `disallow` / `unblock`: not listed) -/
+def setOf : Call → Option Bool
+  | .gate .allow => some true
+  | .gate .block => some true
+  | .gate .disallow => some false
+  | .gate .unblock => some false
+  | _ => none
+
+/-- the event a real change emits -/
+def evOf (ak on : Bool) (u : Nat) : GEvent :=
+  match ak, on with
+  | true, true => .userAllowed u
+  | true, false => .userDisallowed u
+  | false, true => .userBlocked u
+  | false, false => .userUnblocked u
+
+/-- the line asks for the status the account already has -/
+def noopF (g : Nat → Bool) (l : Line) : Bool :=
+  match setOf l.call, l.a.head? with
+  | some on, some u => g u == on
+  | _, _ => false
+
+def expectedEvF (ak : Bool) (g : Nat → Bool) (l : Line) : List GEvent :=
+  match setOf l.call, l.a.head? with
+  | some on, some u => if g u = on then [] else [evOf ak on u]
+  | _, _ => []
+
+def evName : GEvent → String
+  | .paused => "paused"
+  | .unpaused => "unpaused"
+  | .userAllowed u => s!"allowed:{u}"
+  | .userDisallowed u => s!"disallowed:{u}"
+  | .userBlocked u => s!"blocked:{u}"
+  | .userUnblocked u => s!"unblocked:{u}"
+
+def evNames (l : List GEvent) : String := if l.isEmpty then "-" else ";".intercalate (l.map evName)
+
+def vListEv (m : Mon) (l : Line) (o : Obs) : Option String :=
+  if ¬ m.kind.isList then none
+  else if o.ok ∧ noopF m.ghost l ∧ (o.lev ≠ [] ∨ (m.prev.isSome ∧ m.prev ≠ some o.st)) then
+    some s!"site=list.idempotent.{m.kind.name} {l.call.name} of an account that already has that status emitted {evNames o.lev} or changed the observed state"
+  else if o.ok ∧ o.lev ≠ expectedEvF m.kind.allowKind m.ghost l then
+    some s!"site=list.event.{m.kind.name} {l.call.name} emitted {evNames o.lev} but the change of status demands {evNames (expectedEvF m.kind.allowKind m.ghost l)}"
+  else none
+
 def showCap (c : Option Int) : String := match c with | some c => toString c | none => "?"
 
 def vCap (m : Mon) (l : Line) (o : Obs) : Option String :=
@@ -472,6 +535,7 @@ def verdict (m : Mon) (l : Line) (o : Obs) : Option String :=
   orElse (vRollback m o) fun _ =>
   orElse (vPause m l o) fun _ =>
   orElse (vList m l o) fun _ =>
+  orElse (vListEv m l o) fun _ =>
   orElse (vCap m l o) fun _ =>
   vMig m l o
 
